@@ -122,6 +122,13 @@ func productSearch(c *ev.Ctx, trailing bool, maxDepth int) {
 			}
 			continue
 		}
+		// byte sweep: the successor alphabet consists of class representatives;
+		// here EVERY ASCII byte value is fed once in this state, so a scanner that
+		// tells apart two bytes the alphabet puts in one class cannot hide
+		for b := 0; b < 0x80; b++ {
+			c.Inc("product_byte_sweep_" + mode)
+			compare(c, string(s.hist)+string(rune(b)), trailing, "product state + one byte")
+		}
 		keys, deads, depths, _ := expandKeys(s.hist)
 		s.succ = keys
 		for i, sym := range WideAlphabet {
